@@ -702,6 +702,8 @@ func (g *p2pRig) nodeReceive(c *nodeConn, m wire.Message) {
 			}
 		}
 		_ = am.AddAddress(wire.NewNetAddressTimestamp(time.Unix(g.now().Unix(), 0), wire.SFNodeNetwork, net.IPv4(99, byte(90+n.idx), 1, 1), 8333))
+		// (and one that every node knows: the service learns it from several sources)
+		_ = am.AddAddress(wire.NewNetAddressTimestamp(time.Unix(g.now().Unix(), 0), wire.SFNodeNetwork, net.IPv4(98, 76, 5, 4), 8333))
 		c.send(am)
 		r.Probe("addr-sent")
 	case *wire.MsgGetHeaders:
@@ -824,6 +826,10 @@ func (g *p2pRig) step() {
 	for _, c := range g.liveConns(func(c *nodeConn) bool { return c.node != g.honest && c.handshaken() }) {
 		evs = append(evs, ev{"close", c, nil, 1}, ev{"reset", c, nil, 1})
 	}
+	// ... and in the middle of the handshake (the service has the node's version, the verack is still to come)
+	for _, c := range g.liveConns(func(c *nodeConn) bool { return c.node != g.honest && !c.handshaken() && c.versionDelivered }) {
+		evs = append(evs, ev{"close", c, nil, 2})
+	}
 	if pd := g.parkedDials(); len(pd) > 0 {
 		evs = append(evs, ev{"dial", nil, nil, 20})
 	}
@@ -914,9 +920,31 @@ func (g *p2pRig) step() {
 		if e.c.misbehaved == "" || e.c.misDelivered { // (an offence still on its way stays the one that counts)
 			e.c.misbehaved, e.c.misDelivered, e.c.misEnd = "forbidden", false, 0
 		}
+		idle := e.c.nodeEnd.PendingOut() == 0
 		e.c.send(hm)
 		r.Logf("%s pushes its forbidden header unasked", e.c)
 		r.Probe("forbidden-header-pushed")
+		// ... and may hang up at once: the header and the end of the stream arrive together; the sender is gone
+		// by the time the header is looked at, the ban of its host is due all the same
+		if idle && t.Chance(1, 2, "offend-and-hang-up") {
+			g.deliver(e.c, 0)
+			g.afterDeliver(e.c)
+			_ = e.c.nodeEnd.Close()
+			e.c.closed = true
+			r.Logf("%s hangs up right behind it", e.c)
+			r.Probe("offender-hangs-up-at-once")
+			// ... and comes back a moment later: its host is banned by now, whether or not the sender was still
+			// there when its header was looked at
+			if t.Chance(1, 2, "offender-returns") {
+				g.settle()
+				g.advance(3 * time.Second)
+				c2 := g.connect(e.c.node)
+				c2.banProbe = true
+				r.Logf("connect %s from %s (the offender returns)", c2, e.c.node.ip)
+				g.deliver(c2, 0)
+				g.afterDeliver(c2)
+			}
+		}
 	case "double-ban":
 		fc := g.liveConns(func(c *nodeConn) bool {
 			return c.node == e.c.node && c.handshaken() && !c.partitioned && c.admittedLive
@@ -1776,9 +1804,86 @@ func (g *p2pRig) outboundRestored() {
 	r.Probe("outbound-restored")
 }
 
+// drainConn delivers what a connection has pending, one message per step, until nothing is left or it is dead.
+func (g *p2pRig) drainConn(c *nodeConn) {
+	for k := 0; k < 8 && c.nodeEnd.PendingOut() > 0 && !c.dead && !c.closed; k++ {
+		g.deliver(c, 0)
+		g.afterDeliver(c)
+		g.settle()
+	}
+}
+
+// flap (outbound class, directed): the service's outbound connections are established and lost again, thirty times
+// over. Every one of them was a success first: nothing about it may add up to a reason to give an address up.
+func (g *p2pRig) flap() {
+	r := g.r
+	r.Probe("outbound-flapping")
+	r.Logf("flapping: outbound connections are lost as soon as they are established, 30 rounds")
+	for cycle := 0; cycle < 30; cycle++ {
+		r.Step++
+		budget := 8
+		for _, tk := range g.parkedDials() {
+			if budget == 0 {
+				break
+			}
+			budget--
+			g.answerDial(tk, true)
+			g.settle()
+		}
+		for _, c := range g.liveConns(func(c *nodeConn) bool { return !c.inbound }) {
+			g.drainConn(c)
+		}
+		for _, c := range g.liveConns(func(c *nodeConn) bool { return !c.inbound && c.handshaken() }) {
+			_ = c.nodeEnd.Close()
+			c.closed = true
+			g.settle()
+		}
+		g.advance(6 * time.Second)
+	}
+}
+
+// everyoneLeavesAndReturns (C18, end of the run): all peers leave; then the limits must be what they were at the
+// start - "per-host and per-group counters return to zero when the corresponding peers have left, so limits neither
+// leak nor wedge admission over time": the outbound connections come back (outboundRestored) and every host that is
+// not banned is admitted again, connection by connection, as the counting model says.
+func (g *p2pRig) everyoneLeavesAndReturns() {
+	r, t := g.r, g.t
+	if g.outbound && t.Chance(1, 6, "flap") {
+		g.flap()
+	}
+	r.Logf("everybody leaves")
+	r.Probe("everybody-leaves")
+	for _, c := range g.liveConns(nil) {
+		r.Step++
+		_ = c.nodeEnd.Close()
+		c.closed = true
+		g.settle()
+	}
+	g.advance(20 * time.Second)
+	g.outboundRestored()
+	for _, n := range g.nodes {
+		if until, banned := g.banUntil[n.ip.String()]; banned && g.now().Before(until) {
+			continue
+		}
+		for k := 0; k < 3; k++ {
+			r.Step++
+			c := g.connect(n)
+			r.Logf("connect %s from %s (after everybody had left)", c, n.ip)
+			g.settle()
+			g.drainConn(c)
+		}
+	}
+}
+
 func (g *p2pRig) finalChecks() {
 	r := g.r
-	g.outboundRestored()
+	defer func() {
+		// (after the store has been judged)
+		g.outboundRestored()
+		if g.focus == "C18" {
+			g.everyoneLeavesAndReturns()
+		}
+	}()
 	rows := g.w.Snapshot()
 	for _, h := range chainOf(g.honest.best) {
 		row, ok := rows[h.HashStr()]
